@@ -10,6 +10,7 @@ import (
 )
 
 var verbose bool
+var debugHooks = map[string]func(*World){}
 
 type ruleFunc func(w *World, r *Report)
 
@@ -60,6 +61,10 @@ func run(prop, tier, repo, verif, tags string, seed int, start time.Time) (code 
 		}
 		return 1
 	}
+	if h, ok := debugHooks[prop]; ok {
+		h(w)
+		return 0
+	}
 	if prop == "census" {
 		c, err := w.Census()
 		if err != nil {
@@ -97,4 +102,15 @@ func run(prop, tier, repo, verif, tags string, seed int, start time.Time) (code 
 		thorough(w, r, prop, verif, extra)
 	}
 	return r.finish(verif, start, seed, extra)
+}
+
+func init() {
+	debugHooks["risks"] = func(w *World) {
+		w.Census()
+		cnt := map[string]int{}
+		for _, s := range w.riskSites() {
+			cnt[s.class]++
+		}
+		fmt.Println(cnt, len(w.evalScope()))
+	}
 }
